@@ -139,6 +139,12 @@ func gen(g *vh.Gen) {
 	g.Emit("life", "O0:P,k,DP,L0,DP,p0:dele,f0,DP")
 	g.Emit("life", "O0:P,O1:S,k,DP,DS,a0,DP,L1,f1,DS")
 	g.Emit("life", "k,nS,nP,DS,DP")
+	// the accept-to-count window (repair 0022: the accept loop itself is counted): shutdown requested while the
+	// loop holds a connection it has not counted yet — Drain must wait, the session is served, then Drain returns
+	g.Emit("life", "A0:S,k,DS,L0,DS,f0,DS")
+	g.Emit("life", "A0:P,k,DP,DS,L0,p0:pass,DP,f0,DP")
+	g.Emit("life", "o1:S,p1:data,A0:S,k,f1,DS,L0,p0:body,DS,f0,DS")
+	g.Emit("life", "A0:S,A1:P,k,DS,DP,L1,f1,DP,DS,L0,a0,DS")
 	// QUIT with deletions pending in a slow store: Drain must wait for them
 	g.Emit("life", "o0:P,p0:dele,k,G,q0,DP,U,e0,DP")
 	g.Emit("life", "o0:P,p0:dele,o1:P,p1:pass,G,k,q0,q1,e1,DP,DS,U,e0,DP")
